@@ -151,11 +151,15 @@ def run(ctx: Ctx) -> None:
         # The lemma is an equivalence when every categorical factor has >= 2 levels (a one-level factor has an empty
         # reduced coding, so a piece spanned twice adds no column); in that case a disagreement between the structural
         # and the numerical verdict means the machinery is wrong, not the library.
-        if bool(v) != (not numeric_ok) and min(rec["levels"].values()) >= 2:
-            raise MachineryError(f"lemma and numpy disagree on {rec['formula']} ({v or 'partition ok'}; ranks {rec['rank']}/{rec['ncols']}, "
+        # and the machinery is wrong, not the library, when a structure that is NOT a partition comes with a matrix of full rank and
+        # unchanged span. The other disagreement - a valid recorded structure whose columns are rank deficient or span less - is the
+        # property's own predicate failing as measured: the library did not encode the factors the way its structure says
+        # (e.g. a reduced coding served from a cache where the structure says full).
+        if v and numeric_ok and min(rec["levels"].values()) >= 2:
+            raise MachineryError(f"lemma and numpy disagree on {rec['formula']} ({v}; ranks {rec['rank']}/{rec['ncols']}, "
                                  f"unreduced {rec['rank_unreduced']}, joint {rec['rank_joint']})")
         if v or not numeric_ok:
-            ctx.violation(case, {"why": v or "rank/span", "ncols": rec["ncols"], "rank": rec["rank"], "rank_unreduced": rec["rank_unreduced"],
+            ctx.violation(case, {"why": v or "rank/span (the recorded structure is a valid partition: the columns do not realise it)", "ncols": rec["ncols"], "rank": rec["rank"], "rank_unreduced": rec["rank_unreduced"],
                                  "rank_joint": rec["rank_joint"], "observed_structure": rec["scoped"], "model_structure": rec["expected_scoped"]}, kind="replay")
         cats = [f["e"] for t in rec["terms"] for f in t if f["kind"] == "cat"]
         if len(cats) != len(set(cats)):
